@@ -87,6 +87,10 @@ var ruleTextShape = &core.Rule{ID: "R07.2", Min: 4,
 		cm := getCharset(c)
 		_, f := textDetector(c)
 		rs := fde.FindRangeOver(f, f.Params[0])
+		if len(rs) == 0 && loopHeaderOf(f) != nil {
+			s.Bad("scan over unmodified header parameter from index 0", c.Pos(f.Pos()), "the text detector's scanning loop does not range over the whole unmodified header from its first byte (it scans a re-slice or a window): binary data bytes outside the scanned part would go unnoticed")
+			return
+		}
 		if len(rs) != 1 {
 			core.Bail("text detector: %d range loops over the header parameter", len(rs))
 		}
